@@ -21,7 +21,7 @@ from lib import ws
 
 PART, NPART = part(), npart()
 NMAX = 4 if os.environ.get("VERIF_TIER", "quick") == "thorough" else 3
-NINIT = 12  # enumeration orders of a fresh server's workspace_init (all orders for <= 3 files; evenly spaced beyond)  # enumeration orders of a fresh server's workspace_init
+NINIT = 12  # enumeration orders of a fresh server's workspace_init (all orders for <= 3 files; evenly spaced beyond)
 SRV = ws.make_server()
 SHAPES = ["use", "extends", "submodule", "pointer", "associate", "procptr", "binding", "include", "extends_files",
           "mixed", "include_multi", "dummy_iface", "include_in_proc", "use_ptr_cross", "include_nested"]
